@@ -88,6 +88,9 @@ func (o *Oracle) judgeProfileAnswer(e *Exchange) {
 			o.violate(e, "C17.A1-cache-repeats-the-directory", fmt.Sprintf("/profile says %s is a member of %s; the directory never listed them", email, g), "path", "world", "facet", "never-said")
 		}
 	}
+	if len(asked) == 0 {
+		return // the empty question has the empty answer (anything else was reported above as not asked about)
+	}
 	l3 := o.w.Log.Ended(o.groupEpoch, L3)
 	during := func(x *Exchange) bool { return x.Seq > e.Seq && x.At >= e.At && x.Done <= e.Done && x.Status != 0 }
 	switch o.w.Cfg.Provider {
